@@ -230,7 +230,9 @@ class Association(threading.Thread):
         if self._sent_abort:
             return
 
-        if self.is_released:
+        # Nothing to abort if the association has already been released or
+        #   aborted (by the peer, or locally by the ACSE provider)
+        if self.is_released or self.is_aborted:
             return
 
         # Set before restarting the reactor to prevent race condition
